@@ -33,7 +33,10 @@ Definition unformat_tree (p : prep) (text : str) : tree :=
         4 quote_identifier, _requires_quotes_illegal_chars, _unescape_identifier
         5 SQLite round trip prediction (table 0): the harness attaches a schema called exactly [name]; the
           statements refer to schema, table, column and index by what the backend reads from quote(name)
-                                                    -> [0; schema; table; column; index] | [1] *)
+                                                    -> [0; schema; table; column; index; index in the schema] | [1]
+        7, 8 see below *)
+Definition res_tree (r : res str) : tree := match r with Ok x => L [I 0; of_str x] | RaiseIndexError => err end.
+
 Definition run_op (op : Z) (pb : prep * backend) (args : list tree) : tree :=
   let '(p, b) := pb in
   match op, args with
@@ -69,13 +72,31 @@ Definition run_op (op : Z) (pb : prep * backend) (args : list tree) : tree :=
       | Some v => match quote p v with
                   | Ok q => match lex_sent b q with
                             | Some n => if str_eqb n v
-                                        then L [I 0; of_str n; of_str n; of_str n; of_str n]
+                                        then L [I 0; of_str n; of_str n; of_str n; of_str n; of_str n]
                                         else err      (* refers to a schema that does not exist *)
                             | None => err
                             end
                   | RaiseIndexError => err
                   end
       | None => bad_input
+      end
+  | 7%Z, [ts; tn] =>      (* DDLCompiler._prepared_index_name with / without the schema *)
+      match as_opt_str ts, as_str tn with
+      | Some sc, Some i =>
+          match prepared_index_name p true sc i, prepared_index_name p false sc i with
+          | Ok a, Ok c => L [I 0; of_str a; of_str c]
+          | _, _ => err
+          end
+      | _, _ => bad_input
+      end
+  | 8%Z, [ts; ttb; tn] => (* SQLite CREATE INDEX / DROP INDEX text *)
+      match as_opt_str ts, as_str ttb, as_str tn with
+      | Some sc, Some t, Some i =>
+          match sqlite_create_index p sc t i, drop_index p sc i with
+          | Ok a, Ok c => L [I 0; of_str a; of_str c]
+          | _, _ => err
+          end
+      | _, _, _ => bad_input
       end
   | _, _ => bad_input
   end.
